@@ -1027,7 +1027,7 @@ func oracleCdx(op M, res any, exec func(M) any) []Finding {
 					if !Equal(attrOf(a, "Name"), attrOf(b, "Name")) && !(asStr(d["meta"].(M)["name"]) != "" && attrOf(a, "Name") == nil) {
 						add("C03", "name of node %q changes across CycloneDX", id)
 					}
-					if v >= 4 && !Equal(attrOf(a, "Version"), attrOf(b, "Version")) {
+					if (v >= 4 || asStr(attrOf(a, "Version")) != "") && !Equal(attrOf(a, "Version"), attrOf(b, "Version")) {
 						add("C03", "version of node %q changes across CycloneDX", id)
 					}
 					if !Equal(identityAttrs(a)["Hashes"], identityAttrs(b)["Hashes"]) {
